@@ -405,10 +405,12 @@ theorem inv_promote (c : Ctl) (rs : List Nat) (hi : Inv c) : Inv (promote c rs).
   | cons r rest ih =>
     simp only [promote]
     split
-    · exact hi
+    · unfold bumpUnlessEmpty; split
+      · exact hi
+      · exact inv_of_eq hi rfl rfl
     · next i _ =>
-      have h1 := inv_takeFrom c i hi
-      generalize takeFrom c i = t at h1
+      have h1 := inv_takeFrom (bump c) i (inv_of_eq hi rfl rfl)
+      generalize takeFrom (bump c) i = t at h1
       obtain ⟨c1, ids⟩ := t
       simp only
       split
@@ -541,7 +543,7 @@ theorem inv_dispatch (c : Ctl) (v : View) (hb : Bool) (rs : List Nat) (hi : Inv 
              exact inv_promote _ rs (inv_bury _ id h3))
 
 theorem inv_pushLoop (c : Ctl) (rs : List Nat) (fuel : Nat) (hi : Inv c) : Inv (pushLoop c rs fuel).1 := by
-  induction fuel generalizing c with
+  induction fuel generalizing c rs with
   | zero => exact hi
   | succ n ih =>
     simp only [pushLoop]
@@ -550,11 +552,11 @@ theorem inv_pushLoop (c : Ctl) (rs : List Nat) (fuel : Nat) (hi : Inv c) : Inv (
     · next item _ _ =>
       have h0 : Inv (dropItem c item.seq) := inv_of_eq hi rfl rfl
       split
-      · exact ih _ h0
+      · exact ih _ _ h0
       · next o ho =>
         have hoid := polledOp_some ho
         split
-        · exact ih _ (inv_bury _ _ (inv_remove_then _ o.id o .canceled h0 hoid (Or.inl rfl)))
+        · exact ih _ _ (inv_bury _ _ (inv_remove_then _ o.id o .canceled h0 hoid (Or.inl rfl)))
         · next v _ =>
           have h1 : Inv ((dropItem c item.seq).setOp (o.check v).1) :=
             inv_setOp _ o.id o _ h0 hoid (rel_check o v) (noStart_check o v)
@@ -563,10 +565,8 @@ theorem inv_pushLoop (c : Ctl) (rs : List Nat) (fuel : Nat) (hi : Inv c) : Inv (
             generalize dispatch ((dropItem c item.seq).setOp (o.check v).1) v false rs = q at h2
             obtain ⟨c3, m⟩ := q
             simp only
-            have h3 := ih c3 h2
-            generalize pushLoop c3 rs n = q4 at h3
-            obtain ⟨c4, m2⟩ := q4
-            exact h3
+            show Inv (pushLoop c3 _ n).1
+            exact ih _ _ h2
           · next s _ =>
             split
             · exact inv_of_eq h1 rfl rfl
@@ -579,10 +579,8 @@ theorem inv_pushLoop (c : Ctl) (rs : List Nat) (fuel : Nat) (hi : Inv c) : Inv (
               generalize dispatch c2' v false rs = q at h2
               obtain ⟨c3, m⟩ := q
               simp only
-              have h3 := ih c3 h2
-              generalize pushLoop c3 rs n = q4 at h3
-              obtain ⟨c4, m2⟩ := q4
-              exact h3
+              show Inv (pushLoop c3 _ n).1
+              exact ih _ _ h2
 
 theorem inv_stepEv (c : Ctl) (e : Ev) (hi : Inv c) : Inv (stepEv c e).1 := by
   cases e with
